@@ -27,6 +27,7 @@ with directives:
   //@ end
   //@ canary <fn>: <clause>             extra (false) ensures clause; the canary file must FAIL
   //@ applies_if: <path> :: <anchor> :: `TEXT`   shape-specific unit: skipped unless the item contains TEXT
+  //@ applies_unless: <path> :: <anchor> :: `TEXT`   shape-specific unit: skipped if the item contains TEXT
 """
 import json
 import os
@@ -851,16 +852,19 @@ def run_unit(prop, unit_path, tier, seed=0, repo=REPO, _auto_consts=()):
     # textually contains TEXT (e.g. the call that a repaired defect used to make); otherwise it is recorded as skipped with zero
     # obligations.  Used to keep the unit that REPORTED a since-repaired finding alive, so that a revert of the repair is
     # reported as a violation again instead of ending undecided in the unit written for the repaired shape.
-    for ml in re.finditer(r"^\s*//@ applies_if:\s*(\S+) :: (.+?) :: `(.*)`\s*$", open(unit_path).read(), re.M):
+    for ml in re.finditer(r"^\s*//@ applies_(if|unless):\s*(\S+) :: (.+?) :: `(.*)`\s*$", open(unit_path).read(), re.M):
+        # applies_unless: the same, negated -- the unit is generated only while TEXT does NOT occur (the text a repair introduces)
+        want = ml.group(1) == "if"
         try:
-            src = Source(os.path.join(repo, ml.group(1)))
-            it = src.find(ml.group(2).strip())
-            present = ml.group(3) in src.text(it)
+            src = Source(os.path.join(repo, ml.group(2)))
+            it = src.find(ml.group(3).strip())
+            present = ml.group(4) in src.text(it)
         except (LostAnchor, OSError):
-            present = False
-        if not present:
+            present = not want
+        if present != want:
             u.kind = "skipped"
-            u.extra["skipped"] = "shape-specific unit: `%s` does not occur in %s :: %s on this tree" % (ml.group(3), ml.group(1), ml.group(2).strip())
+            u.extra["skipped"] = "shape-specific unit: `%s` %s in %s :: %s on this tree" % (
+                ml.group(4), "does not occur" if want else "occurs", ml.group(2), ml.group(3).strip())
             return u, failures, undecided
     try:
         gen, meta, records, linemap = generate(unit_path, repo, None, tuple(auto_consts))
